@@ -8,6 +8,7 @@ ASSUME = [
     "'refers to its package name' = the name occurs as the base of a selector and does not resolve to a local declaration (go/parser object resolution)",
     "a context-line import whose name falls out of use, and a '-' import whose name is provided by a '+' import that the file already had, are not constrained by the statement and are not judged (DESIGN.md section 7)",
     "files with two imports of one path are outside the table",
+    "the package an unnamed import provides is named as the Go tools assume from its path (last element; the element before a major version 'vN'): the code of the rendered files refers to example.com/x/v2 as x",
 ]
 
 
